@@ -438,7 +438,7 @@ class CallMixin:
                              f"{c.qualname}:{cl.label}@{where}")
         pre_st = st
         # havoc
-        post = self.havoc_locations(st, c.modifies, SpecEnv(st, dict(bound)))
+        post = self.havoc_locations(st, list(c.modifies) + list(c.ghost_modifies), SpecEnv(st, dict(bound)))
         if not c.pure:
             # the callee may allocate: the allocation frontier moves forward by an unknown amount
             post = post.copy()
@@ -484,7 +484,7 @@ class CallMixin:
             sn = sn.assume(Not(cnd))
         env2 = SpecEnv(sn, names, pre_st, dict(bound))
         self.apply_hints(sn, c.hints, env2)
-        for cl in c.ensures:
+        for cl in list(c.ensures) + list(c.ghost_ensures):
             sn = sn.assume(self.spec_bool(SpecEnv(sn, names, pre_st, dict(bound)), cl.expr))
         outs += k(sn, res)
         return outs
